@@ -58,7 +58,9 @@ class Path(Expression):
                 if RE_PROPERTY.fullmatch(segment):
                     buf.append(f".{segment}")
                 else:
-                    buf.append(f"[{segment!r}]")
+                    # No escape sequences in quoted segments either.
+                    quote = '"' if "'" in segment else "'"
+                    buf.append(f"[{quote}{segment}{quote}]")
             else:
                 buf.append(f"[{segment}]")
         return "".join(buf)
